@@ -139,6 +139,47 @@ pub fn run(args: &Args) -> Report {
             }
         }
     }
+    // long documents with a non-BMP character at every alignment around the block sizes a buffered decoder might use
+    // (the character straddles the boundary in UTF-16 as a surrogate pair, in UTF-8 as a four-byte sequence)
+    let boundaries: &[usize] = if args.thorough { &[64, 128, 256, 512, 1024, 2048, 4096, 8192, 16384, 32768, 65536] } else { &[256, 1024, 2048, 4096, 8192, 65536] };
+    for &b in boundaries {
+        for delta in [-4i64, -3, -2, -1, 0, 1, 2] {
+            // a comment of `pad` ASCII characters in front of the character puts it at code unit / byte offset b + delta
+            let head = "ASAP2_VERSION 1 71 /begin PROJECT p \"";
+            let pad = (b as i64 + delta - head.len() as i64).max(0) as usize;
+            let text = format!("{head}{}\u{1F600}\u{10FFFF}é\" /begin MODULE m \"\" /end MODULE /end PROJECT", "x".repeat(pad));
+            let Ok(reference) = a2lgen::load(&text) else {
+                rep.fail("generator", hex(text.as_bytes()), "boundary document does not load".into());
+                continue;
+            };
+            for enc in 0..10 {
+                let bytes = encode(enc, &text);
+                rep.case(&bytes, true);
+                rep.bump("boundary-alignment");
+                match catch(|| a2lfile::verif_hooks::decode_raw_bytes(&bytes)) {
+                    Err(p) => rep.fail("panic", format!("{} {}", ENCODINGS[enc], hex(&bytes)), p),
+                    Ok(s) => {
+                        if strip_bom(&s) != text {
+                            rep.fail("decode", format!("{} {}", ENCODINGS[enc], hex(&bytes)), format!("non-BMP character at offset {b}{delta:+}: decoded text differs from the original ({} vs {} chars)", s.chars().count(), text.chars().count()));
+                        }
+                    }
+                }
+                if delta == -1 || delta == 0 {
+                    let path = tmp.join(format!("b{enc}.a2l"));
+                    std::fs::write(&path, &bytes).unwrap();
+                    match catch(|| a2lfile::load(&path, None, false)) {
+                        Err(p) => rep.fail("panic", format!("{} {}", ENCODINGS[enc], hex(&bytes)), format!("load(path) panicked: {p}")),
+                        Ok(Err(e)) => rep.fail("load", format!("{} {}", ENCODINGS[enc], hex(&bytes)), format!("load(path) failed: {e}")),
+                        Ok(Ok((f, _))) => {
+                            if !model_eq(&f, &reference) {
+                                rep.fail("model", format!("{} {}", ENCODINGS[enc], hex(&bytes)), "model loaded from the encoded file differs from load_from_string".into());
+                            }
+                        }
+                    }
+                }
+            }
+        }
+    }
     // arbitrary bytes
     let nbytes = if args.thorough { 300_000 } else { 12_000 };
     let prefixes: [&[u8]; 12] = [b"", &[0xEF, 0xBB, 0xBF], &[0xFF, 0xFE], &[0xFE, 0xFF], &[0xFF, 0xFE, 0, 0], &[0, 0, 0xFE, 0xFF], &[0x41, 0], &[0, 0x41], &[0x41, 0, 0, 0], &[0, 0, 0, 0x41], &[0xD8, 0x00], &[0x00, 0xD8]];
